@@ -367,12 +367,16 @@ class Sched:
         b.update(open=True, row=row, t_act=t, t_rd=None, t_wr=None)
 
     def _pre_lb(self, b):
+        """earliest explicit precharge of a bank.  A closed bank may still be waiting for its auto-precharge (write recovery
+        / tRAS not yet over): an explicit PRE is placed no earlier than the moment the device starts that precharge itself."""
         T, P = self.T, self.P
+        if not b["open"]:
+            return b["t_pre"] or 0
         return self.lb((b["t_act"], T["tRAS"]), (b["t_wr"], P["WL"] + P["BLc"] + T["tWR"]), (b["t_rd"], T["tRTP"]))
 
     def pre(self, bank, gap, op):
         b, T = self.b[bank], self.T
-        tmin = max(self._pre_lb(b) if b["open"] else 0, self.lb((self.t_ref, T["tRFC"]))) + gap
+        tmin = max(self._pre_lb(b), self.lb((self.t_ref, T["tRFC"]))) + gap
         j = junk(self.seed, len(self.cmds), 7, self.P["addressbits"]) & ~(1 << 10)
         t = self.place("PRE", bank, tmin, op, addr=j)
         b["open"] = False
@@ -380,7 +384,7 @@ class Sched:
 
     def prea(self, gap, op, dfi_bank=0):
         T = self.T
-        tmin = max([self._pre_lb(b) for b in self.b if b["open"]] + [self.lb((self.t_ref, T["tRFC"]))]) + gap
+        tmin = max([self._pre_lb(b) for b in self.b] + [self.lb((self.t_ref, T["tRFC"]))]) + gap
         j = junk(self.seed, len(self.cmds), 8, self.P["addressbits"]) | (1 << 10)
         t = self.place("PREA", 0, tmin, op, addr=j, dfi_bank=dfi_bank)
         for b in self.b:
@@ -438,7 +442,7 @@ def schedule(cfg, P, case):
         k = o["op"]
         g = o.get("gap", 0)
         if k in ("rd", "wr", "act"):
-            bank, row, cw = o["bank"] % nb, o["row"] % nr, o["cw"] % ncw
+            bank, row, cw = o["bank"] % nb, o["row"] % nr, o.get("cw", 0) % ncw
         if k == "act":
             s.act(bank, row, g, i)
         elif k == "pre":
@@ -691,6 +695,11 @@ def trace_findings(run):
                 mis["cycle"], mis["phase"], P["nph"], info, geom)))
             continue
         key = diagnose(run, mis)
+        if key.startswith("same_cycle_commands:"):
+            # own clause: "commands issued on different phases of one controller cycle act in phase order"
+            fs.append(dict(clause="C19.same_cycle_commands", key=key.split(":", 1)[1], what="%s mismatch at cycle %d phase %d: model 0x%x, reference 0x%x%s after commands on different phases of ONE "
+                           "controller cycle (%s); %s" % ("rddata_valid" if cat == "valid" else "rddata", mis["cycle"], mis["phase"], mis["got"], mis["exp"], info, key.split(":", 1)[1], geom)))
+            continue
         if cat == "valid":
             fs.append(dict(clause="C19.rddata_valid", key=key, what="cycle %d phase %d: model rddata_valid=%d, reference %d%s; %s" % (mis["cycle"], mis["phase"], mis["got"], mis["exp"], info, geom)))
             continue
@@ -701,7 +710,7 @@ def trace_findings(run):
                 part = "final_contents"
             if not written and run.cfg.get("init") and run.case.get("kind") == "image":
                 part = "init_image"
-                key = run.cfg["init"]["mapping"] + ":" + key
+                info += " of the %s image of %d 32-bit words" % (run.cfg["init"]["mapping"], run.cfg["init"]["nwords"])
         fs.append(dict(clause="C19." + part, key=key, what="cycle %d phase %d: model rddata=0x%x, reference 0x%x%s; %s" % (mis["cycle"], mis["phase"], mis["got"], mis["exp"], info, geom)))
     # classes / non-triviality
     classes = set()
